@@ -365,3 +365,24 @@ claim(
     "of scope.",
     "DESIGN.md section 5 C06",
 )
+
+claim(
+    "C05",
+    "FLOW+OWN",
+    "static: closed classification of every output sink and every Markup construction, must-escape flow rule, registration table",
+    "Clauses: every buffer.write in a node's render method writes a constant, its own template "
+    "text, to_liquid_string(value, autoescape flag), an integer counter, already-rendered output "
+    "of a get_buffer buffer, or the translate tag's Markup % escaped-values; to_liquid_string "
+    "ends every path in escape(val) under autoescape and joins lists through Markup('').join; "
+    "each of the 21 Markup()/Markupsafe() constructions is a reviewed row (constant, template "
+    "literal, escaped-then-constant-substituted, closed-alphabet encoder, already Markup, "
+    "consumed by unescape, rendered output, or a filter the property excludes) together with "
+    "the code facts each row relies on; only StringLiteral.evaluate marks an evaluated value safe "
+    "and StringLiterals are built from token text only; translate filters are registered with "
+    "autoescape_message=env.autoescape and pass only stringified-and-escaped values to gettext "
+    "on every path; every to_liquid_string call receives the context/environment flag.",
+    "Trusted: markupsafe's contract (Markup operations escape non-Markup operands). Not decided: "
+    "fragments of already-safe markup cut by slice/truncate (no < > \" ' can result). A new "
+    "Markup construction or sink is reported for review, by design.",
+    "DESIGN.md section 5 C05",
+)
